@@ -94,10 +94,25 @@ RecipeNeverWritten == [][r' = r /\ mt' = mt]_vars      \* C15: value receiver, f
 PanicIsTerminal == [][pc = "panic" => pc' = "panic"]_vars
 Terminates == <>(pc \in {"done", "err", "panic"})
 
-\* C02 as a counting statement over the complete cell of index tuples of ONE attempt: every valid
-\* string is produced by exactly one tuple, every tuple produces a string over the alphabet.
 Tuples == [1..r.len -> 0..(A-1)]
 StringOf(t) == [p \in 1..r.len |-> Alpha[t[p]+1]]
+\* ---- refinement: Generate implements "pick any string the recipe allows, or refuse" ----
+\* The abstract specification has one step: from "pending" to ok(s) with s a valid string, to an error of a documented
+\* kind, or to panic (source failure).  CharGen's behaviours, projected by Outcome, are behaviours of it.
+Outcome == CASE pc = "done" -> <<"ok", out>> [] pc = "err" -> <<"err", errKind>> [] pc = "panic" -> <<"panic">> [] OTHER -> <<"pending">>
+AbstractStep == /\ Outcome = <<"pending">>
+                /\ \/ Outcome' = <<"pending">>
+                   \/ Outcome'[1] = "ok" /\ r.len >= 1 /\ Outcome'[2] \in ValidStrings(r)
+                   \/ Outcome'[1] = "err" /\ Outcome'[2] \in {"length", "nochars", "failrate", "exhausted"}
+                   \/ Outcome' = <<"panic">>
+RefinesPickValidString == [][AbstractStep \/ Outcome' = Outcome]_vars
+\* and every valid string is a possible outcome (nothing is unreachable): checked as a reachability count in the runner's
+\* choice trees and here as: from the state after the preflight every valid string has an accepting continuation
+EveryValidStringReachable ==
+  (pc = "drawing" /\ cand = <<>> /\ trial = 1) => \A s \in ValidStrings(r) : \E t \in Tuples : StringOf(t) = s
+
+\* C02 as a counting statement over the complete cell of index tuples of ONE attempt: every valid
+\* string is produced by exactly one tuple, every tuple produces a string over the alphabet.
 OneTuplePerString ==
   (pc = "built" /\ A > 0 /\ r.len >= 1) =>
      /\ \A s \in ValidStrings(r) : Cardinality({t \in Tuples : StringOf(t) = s}) = 1
